@@ -219,7 +219,7 @@ impl BodySet {
             "content_ids": self.contents,
             "content_length_header": "without and with (truthful)",
             "flavours": self.flavours.iter().map(|f| format!("{f:?}")).collect::<Vec<_>>(),
-            "boundaries": self.boundaries.iter().map(|&b| if b == 0 { "b" } else { "70 chars" }).collect::<Vec<_>>(),
+            "boundaries": self.boundaries.iter().map(|&b| crate::gen::boundary_str(b)).collect::<Vec<_>>(),
             "preamble_epilogue": self.pre_epi,
         })
     }
@@ -236,9 +236,9 @@ const ALL_PE: [(u8, u8); 4] = [(0, 0), (1, 0), (0, 1), (1, 1)];
 fn all_contents() -> Vec<u8> {
     (0..N_CONTENTS as u8).collect()
 }
-/// empty, a, CR, CRLF, CRLF--, bare-CR (mid), text-CRLF-text, delimiter+junk
+/// empty, a, CR, CRLF, CRLF--, bare-CR (mid), text-CRLF-text, delimiter+junk, delimiter+junk+"--"
 fn core_contents() -> Vec<u8> {
-    vec![0, 1, 2, 4, 6, 9, 12, 15]
+    vec![0, 1, 2, 4, 6, 9, 12, 15, 17]
 }
 
 fn defs(thorough: bool) -> Vec<SetDef> {
@@ -256,10 +256,25 @@ fn defs(thorough: bool) -> Vec<SetDef> {
             max_fields: if thorough { 3 } else { 2 },
             contents: all_contents(),
             flavours: both.clone(),
-            boundaries: vec![0, 1],
+            boundaries: (0..crate::gen::N_BOUNDARIES).collect(),
             pre_epi: ALL_PE.to_vec(),
         }],
         plan: Plan { deliveries: vec![Whole, All1], pend: Pend::NoneAll, trunc: Trunc::Full, progs: Progs::ReadAll, limits: new.clone() },
+    });
+
+    // K: boundaries that begin / end in dashes ("xyz--", "b-", "--b")
+    v.push(SetDef {
+        name: "K:dash-boundaries-x-every-1-cut",
+        bodies: vec![
+            BodySet { min_fields: 0, max_fields: 3, contents: core_contents(), flavours: vec![Mixed], boundaries: vec![2, 3, 4], pre_epi: vec![(0, 0)] },
+            BodySet { min_fields: 0, max_fields: if thorough { 2 } else { 1 }, contents: all_contents(), flavours: both.clone(), boundaries: vec![2, 3, 4], pre_epi: ALL_PE.to_vec() },
+        ],
+        plan: Plan { deliveries: vec![Cut1], pend: if thorough { Pend::Singles } else { Pend::NoneAll }, trunc: Trunc::Full, progs: Progs::ReadAll, limits: new.clone() },
+    });
+    v.push(SetDef {
+        name: "K2:dash-boundaries-x-every-truncation-offset",
+        bodies: vec![BodySet { min_fields: 0, max_fields: 2, contents: if thorough { all_contents() } else { core_contents() }, flavours: vec![Mixed], boundaries: vec![2, 3, 4], pre_epi: vec![(0, 0)] }],
+        plan: Plan { deliveries: if thorough { vec![Whole, All1, Cut1] } else { vec![Whole, All1] }, pend: Pend::NoneAll, trunc: Trunc::EveryOffset, progs: Progs::ReadAll, limits: new.clone() },
     });
 
     // B: every single cut
